@@ -97,6 +97,11 @@ type Monitor struct {
 	Checks                                                             map[string]int
 	RejectClasses                                                      map[string]int
 	DecideRounds                                                       map[uint64]int
+	// Alarms counts the timer deliveries to honest participants.
+	Alarms int
+	// SigFilter, when set, restricts the findings that are recorded to those whose signature it admits
+	// (solo executions judge C07(a)-(d) only: the other monitors presuppose a network of honest peers).
+	SigFilter func(sig string) bool
 }
 
 type decRec struct {
@@ -148,6 +153,9 @@ func (m *Monitor) Tail() []string {
 }
 
 func (m *Monitor) find(prop, sig string, detail map[string]any) {
+	if m.SigFilter != nil && !m.SigFilter(sig) {
+		return
+	}
 	if len(m.Findings) > 20 {
 		return
 	}
@@ -299,6 +307,9 @@ func (m *Monitor) checkStagnation() {
 func (m *Monitor) onAlarm(h *host, err error) {
 	if h.m.Kind == Honest && !h.done {
 		m.alarmsSinceChange++
+	}
+	if h.m.Kind == Honest {
+		m.Alarms++
 	}
 	m.ps[h.i].callSeq++
 	m.log(rec{Kind: "ALARM", P: h.i, Verdict: errClass(err)})
